@@ -3,7 +3,7 @@
 use super::IpVersion;
 use crate::{
     bencode,
-    message::{Message, TransactionId},
+    message::{Message, MessageBody, TransactionId},
     SocketTrait,
 };
 use async_trait::async_trait;
@@ -76,6 +76,12 @@ impl Socket {
             let (size, addr) = r?;
             match bencode::decode::<Message>(&buffer[0..size]) {
                 Ok(message) => {
+                    // Requests are never replies to a pending transaction, even when they happen
+                    // to carry the same transaction id as one.
+                    if matches!(message.body, MessageBody::Request(_)) {
+                        return Ok((message, addr));
+                    }
+
                     if let Some(responded) = self
                         .transactions
                         .lock()
